@@ -10,8 +10,8 @@ McNames == [k \in UKeys |-> IF k = "DECADE" THEN [sg |-> "decade", pl |-> "decad
                                  ELSE IF k = "Second" THEN [sg |-> "s", pl |-> "s"] ELSE [sg |-> "?", pl |-> "?s"]]
 McSyms == [dot |-> "*", sup |-> <<"^0", "^1", "^2", "^3", "^4", "^5", "^6", "^7", "^8", "^9">>, micro |-> "u"]
 Units == {<<>>, <<<<"Meter", 1, 0>>>>, <<<<"Second", -1, 0>>>>, <<<<"DECADE", 1, 0>>>>, <<<<"Meter", 12, 3>>, <<"DECADE", -1, 0>>>>}
-Results == {[k |-> "val", msg |-> "", num |-> v.num, den |-> v.den, decimal |-> v.decimal, u |-> u] : v \in Vals, u \in Units}
-           \cup {[k |-> "err", msg |-> "divide by zero", num |-> "", den |-> "", decimal |-> "", u |-> <<>>]}
+Results == {[k |-> "val", msg |-> "", msg1 |-> "", num |-> v.num, den |-> v.den, decimal |-> v.decimal, u |-> u] : v \in Vals, u \in Units}
+           \cup {[k |-> "err", msg |-> "divide by zero", msg1 |-> "divide by zero", num |-> "", den |-> "", decimal |-> "", u |-> <<>>]}
 RECURSIVE PrintOut(_, _, _)
 PrintOut(results, j, exact) == IF j > Len(results) THEN <<>>
                             ELSE (IF results[j].k = "val" THEN <<Line(results[j], exact)>> ELSE <<"error: " \o results[j].msg, "  | source", "">>)
